@@ -45,6 +45,15 @@ pub fn cmd_cbor(args: &[&str]) -> String {
                 Err(_) => "B ERR".to_string(),
             }
         }
+        // decode unit bytes and print the unit the way the tool displays it (identifier-free)
+        "deunitname" => {
+            let bytes = hex_decode(args[1]);
+            let back: Result<Compound, _> = serde_cbor::from_slice(&bytes);
+            match back {
+                Ok(c) => format!("B OK {} {}", hex_encode(c.display(false).to_string().as_bytes()), unit_canon(&c)),
+                Err(_) => "B ERR".to_string(),
+            }
+        }
         "dejsonrat" => {
             let bytes = hex_decode(args[1]);
             let back: Result<Rational, _> = serde_json::from_slice(&bytes);
